@@ -37,8 +37,34 @@ def run(ctx):
     import conc
     conc.burst(ctx, 6, 1, 12 if ctx.quick() else 120, what=' (identical call sequences on every instance)')
     conc.burst(ctx, 4 if ctx.quick() else 12, 4, 6 if ctx.quick() else 30)
+    # refused calls (unknown attribute / dimension) between successful ones, alone and under contention
+    conc.burst(ctx, 1, 1, 150 if ctx.quick() else 3000, kind=7, what=' (refused calls interleaved with encapsulations and headers, one thread)')
+    conc.burst(ctx, 1, 8, 60 if ctx.quick() else 1500, kind=7, what=' (refused calls interleaved, 8 threads)')
     for kind, what, k in ((0, 'encaps', 1500), (1, 'PKE encrypt', 800), (2, 'header generate', 800)):
         conc.burst(ctx, 1, 16, k if ctx.quick() else 12 * k, kind=kind, what=f' (all {what}; contention at volume)')
+    # histories: a public value that has been REPLACED (by a rekey) is never published again, whatever is disabled, pruned,
+    # updated or re-derived afterwards ("every rekey publishes a public value never published before")
+    import histcheck as hc, profiles, dumps
+    def republish(scr, out):
+        hits = []; seen = {}; cur = {}
+        for ln, (l, o) in enumerate(zip(scr, out)):
+            parts = o.split('|')
+            if l.split(' ')[0] == 'SETUP': seen = {}; cur = {}
+            if len(parts) >= 3 and parts[2].startswith('MPK') and parts[0] == 'OK' and ' K=' in parts[2]:
+                items = dict(it.split('=', 1) for it in parts[2].split(' K=', 1)[1].split(' ') if '=' in it)
+                for r, v in items.items():
+                    tok = v.split('/')[-1]
+                    if cur.get(r) != tok:
+                        if tok in seen.get(r, set()): hits.append((ln, f'the public value {tok} of right {r} had been replaced earlier and is published again')); break
+                        seen.setdefault(r, set()).add(tok); cur[r] = tok
+        return hits
+    hc.run_profile(ctx, profiles.C16H, 150 if ctx.quick() else 4000, claims=lambda op, a, b: False, extra_oracle=republish, label='C16 rotation histories')
+    # the DEM interface used directly: one key, one plaintext, many encryptions
+    k = 400 if ctx.quick() else 20000
+    vals, dup, fails, done = conc.run(ctx, ['ae', k])
+    ctx.evaluations += 2 * k
+    ctx.ob('freshness', f'concd ae {k}: {2 * k} encryptions through traits::AE under one key (one plaintext repeated, one empty): nonces pairwise distinct, every ciphertext decrypts', not dup and not fails and bool(vals), str(dup)[:200] + ' '.join(fails[:2]))
+    if dup or fails: vf.violation(ctx, 'two DEM encryptions under the same key share their nonce' if dup else fails[0], {'mode': f'ae {k}', 'config': 'default', 'duplicates': {a: b[0] for a, b in dup.items()}})
     # the metadata key must differ from the secret handed to the caller, whatever the authentication data
     import demcheck
     d = demcheck.Demd(); same = []
@@ -58,6 +84,22 @@ def run(ctx):
 
 def replay(ctx, path):
     rep = json.load(open(path)); vf.build_harness(ctx, (rep.get('config', 'default'),))
+    if 'script' in rep:
+        # a history on which a replaced public value came back: print the published values of the rights line by line
+        out = vf.run_lines(vf.harness_bin('kdriver', rep.get('config', 'default')), rep['script'], timeout=300)[0]
+        seen = {}; cur = {}; bad = 0
+        import hist
+        for l, o in zip(hist.pretty(rep['script']), out):
+            parts = o.split('|'); note = ''
+            if len(parts) >= 3 and parts[2].startswith('MPK') and ' K=' in parts[2]:
+                for it in parts[2].split(' K=', 1)[1].split(' '):
+                    if '=' not in it: continue
+                    r, v = it.split('=', 1); tok = v.split('/')[-1]
+                    if cur.get(r) != tok:
+                        if tok in seen.get(r, set()): note += f'  <-- {r} publishes {tok} AGAIN'; bad = 1
+                        seen.setdefault(r, set()).add(tok); cur[r] = tok
+            print(f'{l:40s} {parts[0]}{note}')
+        return bad
     r = vf.sh([vf.harness_bin('concd', rep.get('config', 'default'))] + rep['mode'].split(' '), timeout=6000)
     vals = {}
     for l in r.stdout.split('\n'):
